@@ -246,6 +246,13 @@ func checkC12(c *Ctx, r *Report) {
 						if st.End() <= is.Pos() {
 							if x, ok := st.(*ast.IfStmt); ok && endsInExit(x.Body) {
 								if br, ok := x.Body.List[len(x.Body.List)-1].(*ast.BranchStmt); ok && br.Tok == token.CONTINUE {
+									// the guard-clause form of the IsNonTerminator test: `if !sym.IsNonTerminator { continue }`
+									if un, isNot := unparen(x.Cond).(*ast.UnaryExpr); isNot && un.Op == token.NOT && len(x.Body.List) == 1 {
+										if se, ok := unparen(un.X).(*ast.SelectorExpr); ok && fieldNamed(info, se, "IsNonTerminator") && identObj(info, se.X) == elem {
+											sawNT = true
+											continue
+										}
+									}
 									extra = "continue when " + exprString(x.Cond)
 								}
 							}
